@@ -377,6 +377,13 @@ def judge(hist, steps, final, r, where):
         res, evs, bind = steps[i]
         verdict, emits, binding = ref_step(R, d)
         if verdict == 'unjudged':
+            # whichever way 6.9.2p2 is read, one translation unit never defines the same linked object twice: count what was emitted over the whole history
+            n = 0
+            for res2, evs2, _ in steps:
+                n += sum(1 for e in evs2 if e[0] == 'emitdata' and e[1]['linkage'] in ('ext', 'int'))
+            n += sum(1 for e in (final or []) if e[1]['linkage'] in ('ext', 'int'))
+            if n > 1:
+                return [(False, hkey, 'the unit defines the thread-local object %d times (same symbol emitted repeatedly)' % n)]
             return [(None, hkey, R.unjudged)]
         if verdict == 'diag':
             ok = res.startswith('diag')
